@@ -95,6 +95,9 @@ TORTURE = [
     "x=\"a\n#b\";", "x=1;#c\n#d\n", "if x then\n  y=1; // c\nend if;\n", " ", "  \t", "\v", "a\rb", "a\r\nb", '"a\rb"', '"a\r\nb"', "\r", "\r\n", "a\r",
     "a\r\r\nb", "//c\r\nd", "/*c\r\n*/d", "#c\r\nd", "\xff", "\x80\x81", "a\xe9b", "\x01", "\x7f",
     # C13R2: the classes of unsafe_split_witnesses not yet present above (every split position of each is generated)
+    # C13R3: runs of EMPTY lines (chunks that are just "\n") inside literals, comments, between statements (each also as CRLF)
+    '"a\n\nb"', '"a\n\n\nb"', '"a\n\n\n\nb"', '"\n\n"', '"\n\n\n"', 'x = "a\n\n\nb";\ny = "c\n\nd";', '"a\n \n\n\t\n\nb"', '/* a\n\n\nb */ c',
+    '/*\n\n\n*/', 'a;\n\n\nb;', 'a;\n\n\n\n', '\n\n\na', '// c\n\n\n"s\n\n\nt"\n\n\n# d\n\n\nx', 'u8"\n\n\n"',
     "1e+5", "x; #y", "end", "x;\t #y", "a = 1e+5 ;", "0x1F+1.5", "/*x*/y", "u8\"x\";",
 ]
 NUL_TEXTS = ["a\x00b;\nc;", "\x00", "a\x00", "\x00a", '"a\x00b";\n"c"', "/*\x00*/ x\n*/ y", "ab\x00cd\x00ef\ngh"]
@@ -188,6 +191,19 @@ def edge_programs(quick):
     for k in (1, 2):
         P.append(("hash_k%d" % k, "print 8;" + " " * (k * BUF - 8) + "# not a directive\n" + END, None, None))
         P.append(("hashsp_k%d" % k, "print 8;" + " " * (k * BUF - 10) + "  # not a directive\n" + END, None, None))
+    # C13R3: runs of empty lines inside a literal / a comment / between statements (chunks that are just "\n")
+    for k in (1, 2, 3, 5):
+        for en, end in (("lf", "\n"), ("crlf", "\r\n")):
+            P.append(("emptyl_lit%d_%s" % (k, en), 'print "a' + end * (k + 1) + 'b";' + end + END.replace("\n", end), None, "a" + "\n" * (k + 1) + "b\nEND\n"))
+            P.append(("emptyl_cmt%d_%s" % (k, en), "/* a" + end * (k + 1) + "b */ print 4;" + end * (k + 1) + END.replace("\n", end), "print 4;\n" + END, "4\nEND\n"))
+    # C13R3: lines that FIT the 1023 bytes of the recorded finding and are dense with tokens: whatever smaller size the scanner's
+    # buffer is given, a number sits on its edge in one of the two phases
+    for ph in (0, 3):
+        nums = [1000001 + 7 * i for i in range(118)]
+        P.append(("dense_ph%d" % ph, "n = " + " " * ph + "+".join(map(str, nums)) + ";\nprint n;\n" + END, None, "%d\nEND\n" % sum(nums)))
+        idn = ["v%05d" % i for i in range(3)]
+        P.append(("denseid_ph%d" % ph, "".join("%s = %d;\n" % (v, i + 1) for i, v in enumerate(idn)) + "print " + " " * ph
+                  + "+".join(idn[i % 3] for i in range(140)) + ";\n" + END, None, "%d\nEND\n" % sum((i % 3) + 1 for i in range(140))))
     # degenerate files
     for nm, t in (("empty", ""), ("nl", "\n"), ("crs", "\r\r\r"), ("crlf_only", "\r\n\r\n"), ("nofinal", 'print "x"'), ("nofinal2", 'print "x";'),
                   ("short_crlf", 'print "a";\r\nprint "b";\r\n'), ("blank1023", " " * BUF + "\nprint 9;\n"), ("blank1022crlf", " " * 1022 + "\r\nprint 9;\r\n"),
@@ -270,8 +286,7 @@ class C13(Check):
         for want in ("%x COMMENT", "%x LITERAL"):
             if want not in parts[0]:
                 self.broken_ties.append("extractor: start condition declaration `%s` not found" % want)
-        if not re.search(r"scanner->reader\(scanner->handle, str, &n, 1023\)", parts[2]) or "yy_scan_string(str" not in parts[2]:
-            self.broken_ties.append("extractor: tokenizer_buf no longer reads 1023 bytes into yy_scan_string")
+        self.check_tokenizer_buf(src)
         ans = run.run_driver(["r lexrules"]).get("r", "")
         m = re.match(r"rules=(.*)$", ans)
         mine = [bytes.fromhex(h).decode("latin-1") for h in m.group(1).split(",")] if m else []
@@ -280,6 +295,45 @@ class C13(Check):
                 [r for r in rules if r not in mine][:5], [r for r in mine if r not in rules][:5]))
         self.stats["lex_rules"] = len(rules)
         self.check_reader_sources()
+
+    def check_tokenizer_buf(self, lex_src):
+        """C13R3: `tokenizer_buf` (one reader call = one yy_scan_string buffer, `lexChunksFrom` of the model) in blocc/tokenizer.lex
+        AND in the pre-generated blocc/lex._tokenizer.c — the file that is COMPILED. Both must be the text the model was
+        transcribed from, with the same buffer size N, the reader asked for N-1 bytes, and N = Gen.LEX_BUFFER of the Lean model
+        (extract/gen.py reads tokenizer.lex only). A size other than 1024 is not a broken tie by itself (the model follows the
+        generated constant; the region of the recorded finding stays at 1023 bytes, so the families decide)."""
+        try:
+            c_src = open(os.path.join(build.REPO, "blocc", "lex._tokenizer.c"), encoding="latin-1").read()
+        except OSError as e:
+            self.broken_ties.append("extractor: cannot read blocc/lex._tokenizer.c: %s" % e)
+            return
+        ans = run.run_driver(["r lexbuf"]).get("r", "")
+        mm = re.match(r"lexbuf=(\d+) chunk=(\d+) recorded=(\d+)$", ans)
+        if not mm:
+            self.broken_ties.append("driver: no answer to lexbuf: %r" % ans[:100])
+            return
+        gen_n = int(mm.group(1))
+        sizes = {}
+        for site, text in (("blocc/tokenizer.lex", lex_src), ("blocc/lex._tokenizer.c", c_src)):
+            body = func_body(text, r"YY_BUFFER_STATE\s+tokenizer_buf\s*\(TOKEN_SCANNER scanner\)")
+            m = re.match(r"^\{ char str\[(\d+)\]; /\* check the reader exists \*/ if \(scanner->reader != 0\) \{ int n = 0; "
+                         r"scanner->reader\(scanner->handle, str, &n, (\d+|sizeof\(str\) - 1)\); if \(n > 0\) \{ str\[n\] = '\\0'; "
+                         r"return yy_scan_string\(str, scanner->scanner\); \} \} return 0; \}$", body or "")
+            if not m:
+                self.broken_ties.append("extractor: %s:tokenizer_buf is no longer the text the chunked scanner of the model (one reader call = one "
+                                        "yy_scan_string buffer, nothing skipped) was transcribed from: %r" % (site, (body or "")[:400]))
+                continue
+            n = int(m.group(1))
+            asked = n - 1 if m.group(2).startswith("sizeof") else int(m.group(2))
+            sizes[site] = (n, asked)
+            if asked != n - 1:
+                self.broken_ties.append("extractor: %s:tokenizer_buf asks the reader for %d bytes with a buffer of %d" % (site, asked, n))
+            if n != gen_n:
+                self.broken_ties.append("extractor: %s:tokenizer_buf has a buffer of %d bytes, the Lean model was generated with LEX_BUFFER = %d"
+                                        % (site, n, gen_n))
+        if len(set(sizes.values())) > 1:
+            self.broken_ties.append("extractor: blocc/tokenizer.lex and the compiled blocc/lex._tokenizer.c disagree on tokenizer_buf's buffer: %r" % sizes)
+        self.stats["lex_buffer"] = {"generated": gen_n, "sources": {k: v[0] for k, v in sizes.items()}, "recorded_finding": int(mm.group(3))}
 
     def check_reader_sources(self):
         """C13R2: the reader functions the Lean transcriptions (Model/LexReaders.lean: srCall, rfCall, incCall, stdinCall) were
@@ -494,7 +548,7 @@ class C13(Check):
             c = Case(cid, "rdp inc %s" % hx(a), "|".join(ops), {"kind": "path", "text": "path_" + re.sub(r"[_\d]+.*$", "", nm), "name": nm, "reader": "paths",
                                                                 "len": len(a), "has_b": b is not None, "expect": e, "inter": bool(mi), "a": a})
             cases.append(c)
-            if i % (3 if quick else 1) == 0 or nm.startswith(("deg_", "mlit_")):
+            if i % (3 if quick else 1) == 0 or nm.startswith(("deg_", "mlit_", "emptyl_", "dense")):
                 self.cli_jobs.append(c)
         self.run_cli(self.cli_jobs)
         self.stats["path_programs"] = len(cases)
@@ -569,18 +623,24 @@ class C13(Check):
         note = m.get("note")
         if note:
             # C13R2 section 2: the reader delivered exactly two chunks [a, b]; `safeSplit a b` as decided by the Lean predicate
-            safe, raw = note.split(":")
-            ss = self.stats.setdefault("safesplit", {"safe_equal": 0, "unsafe_differ": 0, "unsafe_equal": 0, "iff_tested": 0})
+            safe, raw, arity = note.split(":")
+            ss = self.stats.setdefault("safesplit", {"safe_equal": 0, "unsafe_differ": 0, "unsafe_equal": 0, "iff_tested": 0, "cuts_safe": 0, "cuts_unsafe": 0})
             if kf != KF_NUL:
-                ss["iff_tested"] += 1
-                if (safe == "safe") != (raw == "eq"):
-                    return self.record_violation("model: safeSplit a b is not equivalent to lexChunks [a,b] = lexWhole (a++b) on this pair "
-                                                 "(the direction of the iff that is only tested fails)", c, iout, m, stderr)
+                if arity == "2":
+                    # lex_token_aligned_iff is a theorem now; the evaluation stays as a regression test of the driver
+                    ss["iff_tested"] += 1
+                    if (safe == "safe") != (raw == "eq"):
+                        return self.record_violation("model: safeSplit a b is not equivalent to lexChunks [a,b] = lexWhole (a++b) on this pair "
+                                                     "(contradicts lex_token_aligned_iff)", c, iout, m, stderr)
+                else:
+                    ss["cuts_safe" if safe == "safe" else "cuts_unsafe"] += 1
+                    if safe == "safe" and raw != "eq":
+                        return self.record_violation("model: safeCuts holds yet lexChunks differs from lexWhole (contradicts lex_cuts_aligned)", c, iout, m, stderr)
                 cr_reader = c.meta["reader"] in ("sr", "rf") and "\r" in bytes.fromhex(c.model_line.split(" ")[1]).decode("latin-1")
                 if safe == "safe" and not cr_reader:
                     if iout != spec:
-                        return self.record_violation("SafeSplit holds for this cut, yet the library's token stream differs from that of the whole text "
-                                                     "(contradicts lex_token_aligned)", c, iout, m, stderr)
+                        return self.record_violation("every cut of this fragmentation is safe (safeSplit / safeCuts), yet the library's token stream differs "
+                                                     "from that of the whole text (contradicts lex_token_aligned / lex_cuts_aligned)", c, iout, m, stderr)
                     ss["safe_equal"] += 1
                 elif safe == "unsafe":
                     ss["unsafe_equal" if iout == spec else "unsafe_differ"] += 1
@@ -636,14 +696,16 @@ class C13(Check):
         res = []
         for variant in (0, 1):
             got, err = [], None
-            for ln in lines:
+            for idx, ln in enumerate(lines):
                 if variant == 0:
                     if ln.startswith((b">>> ", b"... ")) or ln in (b">>>", b"..."):
                         continue              # prompt + readline's echo of the piped line
                 else:
                     ln = re.sub(rb"^(?:>>> |\.\.\. )+", b"", ln)
-                if ln.startswith(b"Elapsed: ") or ln == b"":
+                if ln.startswith(b"Elapsed: "):
                     continue
+                if ln == b"" and idx + 1 < len(lines) and re.sub(rb"^(?:>>> |\.\.\. )+", b"", lines[idx + 1]).startswith(b"Elapsed: "):
+                    continue              # the "\nElapsed: …" of the loop; any OTHER empty line is program output
                 mm = re.match(rb"^Error(?: \(\d+:\d+\))?: (.*)$", ln)
                 if mm:
                     err = mm.group(1)
